@@ -22,8 +22,8 @@ use datafusion_physical_plan::repartition::verif_hooks::{
 };
 use h_util::{arg, json_str, Rng};
 
-/// a threaded run normally ends within milliseconds
-const WATCHDOG_S: u64 = 30;
+/// a threaded run normally ends within milliseconds (the machine may be heavily loaded: be generous; the stress part stops at the first hang)
+const WATCHDOG_S: u64 = 120;
 
 struct LogWaker {
     id: u64,
